@@ -62,6 +62,19 @@ def check_poly_case(c):
             probs.append(({"clause": "scale_later_data_sign"}, base))
         if abs(np.mean(y)) > TOL or abs(np.std(y) - 1) > TOL:
             probs.append(({"clause": "scale_not_mean0_sd1"}, base))
+    # center and scale do not depend on where the data sit: the same exact values must come out for x + K
+    # (K large against the spread: a one-pass variance formula loses all its digits there)
+    for K in (10**6, 10**7):
+        xs, ls = x + K, later + K
+        ce2 = Center()
+        if not np.allclose(ce2(xs), [float(fr(q)) for q in c["center"]], rtol=0, atol=1e-6) or not np.allclose(ce2(ls), [float(fr(q)) for q in c["center_new"]], rtol=0, atol=1e-6):
+            probs.append(({"clause": "center_not_shift_invariant"}, dict(base, offset=K)))
+        if c["scale_sq"]:
+            sc2 = Scale()
+            y1, y2n = sc2(xs), sc2(ls)
+            if (not np.allclose(y1**2, [float(fr(q)) for q in c["scale_sq"]], rtol=1e-5, atol=1e-6) or not np.allclose(y2n**2, [float(fr(q)) for q in c["scale_sq_new"]], rtol=1e-5, atol=1e-6)
+                    or abs(np.std(y1) - 1) > 1e-5):
+                probs.append(({"clause": "scale_not_shift_invariant_or_not_unit_sd"}, dict(base, offset=K, sd=float(np.std(y1)))))
     d = c["par"]["degree"]
     # raw powers
     raw = Polynomial()(x, d, raw=True)
@@ -323,7 +336,7 @@ def main(tier, seed):
         "Transforms_Trace as exact oracle. Non-trivial = distinct (vector, parameters) cases."
     )
     rep.assumptions = [
-        "NOT decided: accuracy under large offsets or ill-conditioning, degree > 3, long vectors (32-bit exact arithmetic; no floats in TLC)",
+        "NOT decided: accuracy of bs / poly under large offsets or ill-conditioning, degree > 3, long vectors (32-bit exact arithmetic; no floats in TLC); for center / scale the exact small-integer values are also demanded of the same data shifted by 1e6 and 1e7 (shift invariance, 1e-5)",
         "poly with degree >= number of distinct values is degenerate and not judged",
         "scale and orthonormal poly values are irrational: their squares and signs are compared",
     ]
